@@ -302,7 +302,11 @@ func (c14) Explore(tier string, seed int64, deadlineSec int) *engine.Report {
 				}
 				for i, o := range x.Outcomes {
 					if i < len(solo) && o != solo[i] {
-						addViol(sc.Name, "outcome-differs-from-solo", fmt.Sprintf("thread %d gives %s, alone it gives %s", i, trunc200(o), trunc200(solo[i])), choices)
+						cls := "outcome-differs-from-solo"
+						if x.Deadlock {
+							cls = "deadlock"
+						}
+						addViol(sc.Name, cls, fmt.Sprintf("thread %d gives %s, alone it gives %s", i, trunc200(o), trunc200(solo[i])), choices)
 						violated = true
 					}
 				}
